@@ -16,7 +16,8 @@ RULE = ('EconSpecs as in C01 x a permutation of the constructor calls (drawn as 
         'Non-trivial: the permutation puts at least one market or tax-flow object before a sector it links (the business '
         'for a labour/goods market, a household for the tax flow). Distinct: sha1 of (spec, keys).')
 ASSUMPTIONS = [
-    'family real-solver: k=0 values must be identical (the time-zero constant propagation is an order-independent closure); '
+    'family real-solver: k=0 values must agree to 1e-12 of the largest k=0 value (the time-zero constant propagation is an '
+    'order-independent closure; only the rounding of sums depends on the order of the summands); '
     'k>=1 values within 1e-3*max(1,|x|) (solver tolerance 1e-6; summation order may change the sweep count)',
     'countries are created in the same order in both builds; only the sector declarations are permuted',
     'equality is exact (rational numbers): the two systems are required to have the same solution, not the same text',
@@ -138,8 +139,11 @@ def run_real(case_):
     if set(t1.keys()) != set(t2.keys()):
         raise Violation('C08/real-variable-set', 'only canonical %r, only permuted %r' %
                         (sorted(set(t1) - set(t2))[:5], sorted(set(t2) - set(t1))[:5]))
+    scale0 = max([1.0] + [abs(t1[v][0]) for v in t1 if isinstance(t1[v][0], (int, float))])
     for v in t1:
-        if t1[v][0] != t2[v][0]:
+        # (equal up to floating-point rounding: a market total is a sum over the sectors in declaration order, and
+        # float addition is not associative - 12.3018 against 12.301799999999998 was once reported here)
+        if not abs(t1[v][0] - t2[v][0]) <= 1e-12 * scale0:
             raise Violation('C08/real-k0-differs', '%s at k=0: canonical %r, permuted %r (declaration order %r)' %
                             (v, t1[v][0], t2[v][0], ['%d.%d.%s' % x for x in b2.decl_order]))
     for k in range(1, K + 1):
